@@ -58,11 +58,15 @@ impl OperationTransformVisitor<'_> {
             return;
         }
 
+        // count a propagation only for the operation that has just been instrumented (it carries its tag),
+        // not for every later expression visited once the file is already marked as modified
+        let instrumented = status == Status::Modified && tag.is_some();
+
         if status != Status::NotModified {
             self.transform_status.status = status;
         }
 
-        if self.transform_status.status == Status::Modified {
+        if instrumented {
             self.transform_status.telemetry.inc(tag);
         }
     }
